@@ -11,6 +11,14 @@ pub struct ContinuousOutput {
     n_states: usize,
 }
 
+/// Slack of the time comparisons of the dense output: a rounding error of the time axis. A step
+/// is stored as (xold, h) and xold + h can differ from the reported step end by an ulp (by a few
+/// when a solver declares xend reached to its step-size resolution); 1e-12 covers that near the
+/// origin, far from it an ulp is larger.
+pub(crate) fn lookup_slack(t: Float) -> Float {
+    (16.0 * Float::EPSILON * t.abs()).max(1e-12)
+}
+
 impl ContinuousOutput {
     /// Build a ContinuousOutput from per-step tuples of (cont, xold, h) and the selected method.
     pub(crate) fn from_segments(
@@ -111,7 +119,7 @@ impl ContinuousOutput {
     /// or less, a far-away step would be extrapolated).
     fn containing_segment(&self, t: Float) -> Option<&DenseSegment> {
         let mut best = None;
-        let mut best_dist = 1e-12;
+        let mut best_dist = lookup_slack(t);
         for seg in &self.segs {
             let left = seg.xold.min(seg.xold + seg.h);
             let right = seg.xold.max(seg.xold + seg.h);
